@@ -55,12 +55,9 @@ impl Model {
                     }
                 }
             } else if t[0] == "a" {
-                if let Ok(a) = Addr::try_from_bytes(t[1].as_bytes()) {
-                    let k = a.kind;
-                    if (k.is_replaceable() && a.d.is_empty()) || k.is_parameterized_replaceable() {
-                        if let Ok(d) = String::from_utf8(a.d.clone()) {
-                            self.addr_del.entry((k.as_u16(), hex(a.author.as_slice()), d)).or_default().push(req.created_at);
-                        }
+                if let Some((k, a, d)) = parse_addr(&t[1]) {
+                    if (kind_is_replaceable(k) && d.is_empty()) || kind_is_param_replaceable(k) {
+                        self.addr_del.entry((k, a, d)).or_default().push(req.created_at);
                     }
                 }
             }
@@ -97,6 +94,7 @@ impl Prop for C11 {
             reopen: 2,
             rebuild: 1,
             extra: 0,
+            pressure: 1,
         };
         let cfg = EvCfg {
             authors: 2,
@@ -126,7 +124,8 @@ impl Prop for C11 {
         let mut structural_seen = false;
         for (stepno, op) in c.ops.iter().enumerate() {
             let Some(conc) = w.concretise(op) else { continue };
-            let pre_cover = if let Concrete::Store(i) = &conc { m.covered(&w.events[*i]) } else { None };
+            let pre_cover = if let Concrete::Store(i) = conc.inner() { m.covered(&w.events[*i]) } else { None };
+            let pressured = conc.under_pressure();
             let step = w.apply(&conc);
             if let Res::Panic(k) = &step.res {
                 out.fail(format!("C11:{k}"), format!("step {stepno} {:?}", op));
@@ -148,6 +147,9 @@ impl Prop for C11 {
                                 out.nontrivial = true;
                                 out.label("covered-after-reopen-or-rebuild");
                             }
+                        } else if pressured && matches!(step.res, Res::Other(_)) {
+                            // the injected fault (no reader slot) made the store fail before it could answer
+                            out.label("covered-store-failed-under-pressure");
                         } else {
                             out.fail(
                                 format!("C11:covered-event-not-refused:{why}:{}", step.res.class()),
